@@ -301,6 +301,14 @@ pub fn run_c07(ctx: &Ctx) -> Report {
     if st.local.counters[0] == 0 || st.local.counters[1] == 0 {
         rep.engine_failures.push("vacuity guard: maximize never changed / always changed".into());
     }
+    // the maximize/minimize actions inside the mutation histories (E3): variants, extensions,
+    // the returned bool and the other per-call clauses, on every reachable state of H-id / H-cross
+    {
+        let keep: Vec<(u64, u64, Violation)> = rep.collector.classes();
+        let sum = super::history::run_harnesses(ctx, &["H-id", "H-cross"], &["c07."], &mut rep, false);
+        super::history::fill_report(&mut rep, &sum, "C07: maximize as an action of the mutation histories");
+        let _ = keep;
+    }
     rep.rule = "E4: the complete product L x S x R (incl. absent and unknown representatives) through likelysubtags::maximize, checked against the algebraic laws only (no data); then a sub-universe x 3 variant lists x 4 extension sets through the in-place APIs. Non-trivial = maximize changes the triple.".into();
     rep
 }
@@ -458,6 +466,14 @@ pub fn run_c08(ctx: &Ctx) -> Report {
     rep.extra.insert("minimize_results".into(), json!({"none": st.local.counters[0], "some": st.local.counters[1], "reference_comparison_skipped_fallback_in_play": st.local.counters[2]}));
     if st.local.counters[0] == 0 || st.local.counters[1] == 0 {
         rep.engine_failures.push("vacuity guard: minimize never changed / always changed".into());
+    }
+    // the maximize/minimize actions inside the mutation histories (E3): variants, extensions,
+    // the returned bool and the other per-call clauses, on every reachable state of H-id / H-cross
+    {
+        let keep: Vec<(u64, u64, Violation)> = rep.collector.classes();
+        let sum = super::history::run_harnesses(ctx, &["H-id", "H-cross"], &["c08."], &mut rep, false);
+        super::history::fill_report(&mut rep, &sum, "C08: minimize as an action of the mutation histories");
+        let _ = keep;
     }
     rep.rule = "E4: the complete product L x S x R through likelysubtags::minimize; the laws of C08 are evaluated on the library alone (using the library's own maximize), the chosen form is also compared with the dictionary reference; then the in-place APIs on a sub-universe x variants x extensions. 'minimize(maximize(x)) == minimize(x)' is read at function-return level (DESIGN §6.1). Non-trivial = minimize returns a form.".into();
     rep
